@@ -55,6 +55,45 @@ Theorem c02_body_emission_total : forall cx ar t p0, Den ar t -> scoped (ex_id2i
   exists st', emit_events cx ar (init_estate p0) (events false t) = Ok st' /\ blocks st' = [] /\ kinds st' = [].
 Proof. exact Proofs.EmitFn.emit_no_panic. Qed.
 
+(* End to end on the models, with NO premise about function bodies: on a stream with the validator's guarantees
+   ([valid_stream]: section order, module-level indices, counts, well-formed bodies; [refs_in_range]: the entity indices
+   carried by operators are in range) parsing succeeds and emitting the parsed module - immediately or after GC - never
+   hits a panic path.  Without the index bounds the statement is false (witness: `call 7` in a one-function module:
+   the parse model maps the index to an invalid id and the emit model panics) - the real parser would already
+   have unwrapped an error there, and the validator rejects the input first. *)
+From WV Require Import Model.ParseSpec Proofs.ParseTotal Proofs.TotalityBodies Proofs.Names.
+Theorem c02_emit_total_after_parse_no_body_premise :
+  forall (cf : config) (ver : nstr) (w : wmod) (s : pst) (ilen : wins -> N) (dw : list wsec),
+         valid_stream w ->
+         parseM cf ver w = POk s ->
+         refs_in_range w (ps_ids s) -> exists e : emitted, emitM (ps_m s) ilen dw = Ok e.
+Proof. exact emit_total_after_parse_final_partial. Qed.
+
+Theorem c02_emit_total_after_gc_no_body_premise :
+  forall (cf : config) (ver : nstr) (w : wmod) (s : pst) (m' : wir) (ilen : wins -> N) (dw : list wsec),
+         valid_stream w ->
+         parseM cf ver w = POk s ->
+         refs_in_range w (ps_ids s) -> gc (ps_m s) = Ok m' -> exists e : emitted, emitM m' ilen dw = Ok e.
+Proof. exact emit_total_after_gc_final_partial. Qed.
+
+Theorem c02_index_bounds_needed :
+  exists w : wmod,
+           valid_stream w /\
+           (exists s : pst,
+              parseM default_config [49] w = POk s /\ emitM (ps_m s) (fun _ : wins => 1) [] = Panic).
+Proof. exact emit_total_after_parse_final_refuted. Qed.
+
+Theorem c02_parsed_bodies_never_panic_the_emitter :
+  forall (cf : config) (ver : nstr) (w : wmod) (s : pst) (id : N) (fn : mfunc) 
+           (lf : mlocalfunc) (ecx : ectx),
+         valid_stream w ->
+         parseM cf ver w = POk s ->
+         aget (m_funcs (ps_m s)) id = Some fn ->
+         fn_kind fn = FK_Local lf ->
+         exists st : estate, emit_body ecx (lf_fuel lf) (lf_arena lf) (lf_entry lf) 0 = Ok st.
+Proof. exact parsed_emit_no_panic. Qed.
+
+
 Print Assumptions c02_parsed_module_closed.
 Print Assumptions c02_gc_keeps_closed.
 Print Assumptions c02_closed_means_every_reference_indexed.
@@ -63,3 +102,7 @@ Print Assumptions c02_emit_total_after_gc.
 Print Assumptions c02_names_never_panic.
 Print Assumptions c02_gc_corner_refuted.
 Print Assumptions c02_body_emission_total.
+Print Assumptions c02_emit_total_after_parse_no_body_premise.
+Print Assumptions c02_emit_total_after_gc_no_body_premise.
+Print Assumptions c02_index_bounds_needed.
+Print Assumptions c02_parsed_bodies_never_panic_the_emitter.
